@@ -127,7 +127,7 @@ type vaRes struct {
 func vaCall(kind string, cs, norm, fwd bool, chars *util.Chars, pat []rune, withPos bool, slab *util.Slab) (res vaRes) {
 	defer func() {
 		if r := recover(); r != nil {
-			res = vaRes{S: -2, E: -2, Panic: fmt.Sprint(r)}
+			res = vaRes{S: -2, E: -2, Pos: []int{}, Panic: fmt.Sprint(r)}
 		}
 	}()
 	r, pos := vaFuncs[kind](cs, norm, fwd, chars, pat, withPos, slab)
